@@ -148,6 +148,161 @@ def run_schedule(period, P, sched, offset, release, res):
     return out
 
 
+def checked_wait(rig, t0, k, P, label):
+    """One wait() that must block until t0 + k*P (the harness is at or before that instant).  No early polls."""
+    import hal.simulation as hs
+    import wpilib
+
+    now = wpilib.RobotController.getFPGATime
+    grid = t0 + k * P
+    alarm = hs.getNextNotifierTimeout()
+    if alarm != grid:
+        return (f"alarm-off-grid:{label}", f"before wait #{k}: alarm at {alarm - t0} us after t0, expected {k * P}")
+    t_call = now()
+    rig.cmd.put(("wait",))
+    ev = rig.get(10)
+    if ev[0] != "enter":
+        return ("harness", f"unexpected event {ev}")
+    if grid > t_call:
+        hs.stepTimingAsync(grid - t_call)
+    ev = rig.get(PATIENCE)
+    if ev[0] != "ret":
+        return (f"wait-never-returns:{label}", f"wait #{k}: {ev}")
+    if ev[1] != max(grid, t_call):
+        kind = "returned-before-grid-point" if ev[1] < grid else "returned-late"
+        return (f"{kind}:{label}", f"wait #{k} returned at {ev[1] - t0} us after t0, grid point {k * P}")
+    return None
+
+
+def run_long(period, P, n, body, res):
+    """Many consecutive iterations with a constant short body: drift that only accumulates slowly."""
+    import hal.simulation as hs
+    import wpilib
+    from robotpy_ext.misc.precise_delay import NotifierDelay
+
+    hs.stepTimingAsync(1)
+    rig = Rig()
+    t0 = wpilib.RobotController.getFPGATime()
+    d = NotifierDelay(period)
+    rig.delay = d
+    try:
+        for k in range(1, n + 1):
+            if body:
+                hs.stepTimingAsync(body)
+            r = checked_wait(rig, t0, k, P, "long-run")
+            res.transitions += 1
+            if r:
+                return [(r[0], f"{r[1]} (iteration {k} of a run with constant body {body} us)")]
+    finally:
+        rig.cmd.put(("stop",))
+        d.free()
+        rig.th.join(2)
+    return []
+
+
+PAIR_VARIANTS = ["nothing", "free-again", "exit-again", "wait-on-released", "garbage-collect", "release-after-second-created"]
+
+
+def run_pair(period, P, variant, first_release, res):
+    """Two NotifierDelay objects whose lifetimes touch: a released object must never disturb a later one."""
+    import gc
+    import hal.simulation as hs
+    import wpilib
+    from robotpy_ext.misc.precise_delay import NotifierDelay
+
+    now = wpilib.RobotController.getFPGATime
+    hs.stepTimingAsync(3)
+    n0 = hs.getNumNotifiers()
+    rig1, rig2 = Rig(), Rig()
+    out = []
+    d1 = NotifierDelay(period)
+    t01 = now()
+    rig1.delay = d1
+    d2 = None
+    try:
+        r = checked_wait(rig1, t01, 1, P, "pair-first")
+        if r:
+            return [r]
+        if variant != "release-after-second-created":
+            d1.free() if first_release == "free" else d1.__exit__(None, None, None)
+            if hs.getNumNotifiers() != n0:
+                return [("not-released:pair", f"getNumNotifiers {hs.getNumNotifiers()} after releasing the first object, {n0} before")]
+        hs.stepTimingAsync(P // 3)
+        d2 = NotifierDelay(period)
+        t02 = now()
+        rig2.delay = d2
+        if variant == "release-after-second-created":
+            d1.free() if first_release == "free" else d1.__exit__(None, None, None)
+        elif variant == "free-again":
+            d1.free()
+        elif variant == "exit-again":
+            d1.__exit__(None, None, None)
+        elif variant == "wait-on-released":
+            t = now()
+            rig1.cmd.put(("wait",))
+            ev = rig1.get(5)
+            ev = rig1.get(5) if ev[0] == "enter" else ev
+            if ev[0] != "ret" or now() != t:
+                return [("wait-after-release-blocks:pair", f"wait() on the released first object -> {ev}")]
+        elif variant == "garbage-collect":
+            rig1.delay = None
+            d1 = None
+            gc.collect()
+        if hs.getNumNotifiers() != n0 + 1:
+            return [(f"second-notifier-destroyed:{variant}", f"getNumNotifiers {hs.getNumNotifiers()} while the second object is alive, expected {n0 + 1}")]
+        for k in (1, 2):
+            hs.stepTimingAsync(P // 4)
+            r = checked_wait(rig2, t02, k, P, f"pair-second:{variant}")
+            res.transitions += 1
+            if r:
+                return [r]
+        d2.free()
+        if hs.getNumNotifiers() != n0:
+            return [("not-released:pair", f"getNumNotifiers {hs.getNumNotifiers()} at the end, {n0} before")]
+    finally:
+        for rg in (rig1, rig2):
+            rg.cmd.put(("stop",))
+        for dd in (d1, d2):
+            try:
+                if dd is not None:
+                    dd.free()
+            except Exception:
+                pass
+        rig1.th.join(2)
+        rig2.th.join(2)
+    return out
+
+
+def work_extra(item):
+    core.bind_repo()
+    import hal.simulation as hs
+
+    hs.pauseTiming()
+    res = core.Result()
+    period, P = item["period"]
+    if item["kind"] == "long":
+        for body in (0, P // 2, P - 1):
+            res.executions += 1
+            res.checks += item["n"]
+            for sig, msg in run_long(period, P, item["n"], body, res):
+                if sig == "harness":
+                    raise core.HarnessError(msg)
+                res.violation(sig, f"period {P} us: {msg}", dict(engine="notifier", kind="long", period=period, P=P, n=item["n"], body=body))
+        res.sample(dict(kind="long-run", period_us=P, iterations=item["n"], bodies_us=[0, P // 2, P - 1]))
+    else:
+        for variant in PAIR_VARIANTS:
+            for rel in ("free", "with"):
+                res.executions += 1
+                res.checks += 4
+                for sig, msg in run_pair(period, P, variant, rel, res):
+                    if sig == "harness":
+                        raise core.HarnessError(msg)
+                    res.violation(sig, f"period {P} us, variant {variant}, first object released by {rel}: {msg}", dict(engine="notifier", kind="pair", period=period, P=P, variant=variant, release=rel))
+                res.outcome(f"pair:{variant}:{rel}")
+        res.sample(dict(kind="two-objects", variants=PAIR_VARIANTS))
+    return res
+
+
 def work(item):
     core.bind_repo()
     import hal.simulation as hs
@@ -201,8 +356,17 @@ def main(tier, seed):
         for i in range(0, len(scheds), 60):
             items.append(dict(period=(period, P), schedules=scheds[i:i + 60], offsets=[0, 7777] if tier == "thorough" else [0]))
     res = core.Result()
-    for d in core.parallel("mc.props.c16", "work", items, seed=seed):
-        res.merge(d)
+    extra = []
+    for period, P in PERIODS:
+        n = (1300 if P == 1000 else 400) if tier == "quick" else (5000 if P == 1000 else 2000)
+        extra.append(dict(kind="long", period=(period, P), n=n))
+        extra.append(dict(kind="pair", period=(period, P)))
+    with core.WorkerPool() as pool:
+        for d in pool.run("mc.props.c16", "work", items, seed=seed):
+            res.merge(d)
+        for d in pool.run("mc.props.c16", "work_extra", extra, seed=seed):
+            res.merge(d)
+    res.bounds.update(long_run_iterations={"1000us": 1300 if tier == "quick" else 5000, "others": 400 if tier == "quick" else 2000}, two_object_variants=PAIR_VARIANTS)
     res.states = len(PERIODS) * 6 * maxlen
     res.bounds.update(schedule_length=maxlen, periods_us=[p[1] for p in PERIODS], body_durations=["0", "P/2", "P-1us", "P", "P+1us", "2.5P"], schedules=nsched)
     rule = (
@@ -211,7 +375,9 @@ def main(tier, seed):
         "worker thread, the harness reads the programmed alarm from the HAL (independent of the object's fields) before each wait and the FPGA time at "
         "which wait() returned. Oracle: alarm before wait #k == t0 + k*P; return time == max(t0 + k*P, time of the call); a wait that must block is "
         "given the chance to return early before the clock moves and again 1 us before the grid point; after free() / leaving the with-block the HAL "
-        "notifier count is back and wait() returns without the clock moving. states = (period, body duration, position); transitions = waits executed."
+        "notifier count is back and wait() returns without the clock moving. In addition: long uninterrupted runs (hundreds to thousands of iterations with a "
+        "constant short body, every alarm and return instant checked to the microsecond) and two objects whose lifetimes touch (the first released, freed again, waited on, "
+        "garbage-collected or released after the second was created: the second object's grid and the HAL notifier count must be undisturbed). states = (period, body duration, position); transitions = waits executed."
     )
     return core.finish(PID, tier, seed, res, time.time() - t0, rule, ["HAL simulation notifier semantics are the environment", "periods whose microsecond conversion is exact (the int() truncation of other periods is noted in DESIGN.md section 6, outside the stated grid property)"])
 
